@@ -7,7 +7,13 @@ for id in $(python3 -c "
 import json
 for l in open('seeded/detections.jsonl'):
     if l.strip(): print(json.loads(l)['id'])"); do
-  prop=$(python3 -c "import json;print(json.load(open('seeded/$id/meta.json'))['property'])")
+  # the check that is recorded as catching it (the property's own check where that is the case)
+  prop=$(python3 -c "
+import json
+for l in open('seeded/detections.jsonl'):
+    if l.strip():
+        d=json.loads(l)
+        if d['id']=='$id': print(d['caught_by'][0])")
   out=$(./eval_seeded.sh $id $prop 2>&1)
   echo "$out" | cut -c1-200
   echo "$out" | grep -q "rc=1" || { echo "NOT CAUGHT: $id by $prop"; rc=1; }
